@@ -54,7 +54,8 @@ Inductive largs :=
 Record mro := mkMro {
   m_ok_json : bool;      (* supercls( *exc.args) constructs, json round-trips and is truthy *)
   m_ok_pickle : bool;    (* supercls( *exc.args) constructs, pickle round-trips and is truthy *)
-  m_loaded : largs       (* the args of the unpickled supercls( *exc.args), relative to exc.args (Python's own pickling) *)
+  m_loaded : largs;      (* the args of the unpickled supercls( *exc.args), relative to exc.args (Python's own pickling) *)
+  m_is_exc : bool        (* the class is a subclass of BaseException (false for a mixin in the MRO) *)
 }.
 Definition m_ok (c : coder) (m : mro) : bool := match c with CJson => m_ok_json m | CPickle => m_ok_pickle m end.
 
@@ -246,7 +247,9 @@ Definition load_pickle (g : graph) (p : prep) : outcome :=
       match nth_error g id with
       | Some n =>
         match nth_error (n_mro n) i with
-        | Some m => OLoaded (LNode id (if i =? 0 then KOrig else KBase i) (i =? 0) (m_loaded m) LNone LNone false)
+        | Some m =>
+          if m_is_exc m then OLoaded (LNode id (if i =? 0 then KOrig else KBase i) (i =? 0) (m_loaded m) LNone LNone false)
+          else ONotExc           (* find_pickleable_exception returned an instance of a non-exception mixin *)
         | None => ONotExc
         end
       | None => ONotExc
@@ -405,7 +408,7 @@ Definition class_node_pickle (n : node) (k : lkind) (named : bool) (a : largs) :
   else match first_ok CPickle (n_mro n) 0 with
        | Some i =>
          match nth_error (n_mro n) i with
-         | Some m => largs_eqb a (m_loaded m) &&
+         | Some m => m_is_exc m && largs_eqb a (m_loaded m) &&
                      (if i =? 0 then is_orig k && named else match k with KBase j => j =? i | _ => false end)
          | None => false
          end
@@ -447,7 +450,7 @@ Fixpoint class_json_ok (e : enc) (g : graph) (t : ltree) : Prop :=
 Definition class_spec_pickle (n : node) (k : lkind) (named : bool) (a : largs) : Prop :=
   (n_exc_rt_pickle n = true -> k = KOrig /\ named = true /\ a = n_native n) /\
   (n_exc_rt_pickle n = false -> forall i, first_ok CPickle (n_mro n) 0 = Some i ->
-      exists m, nth_error (n_mro n) i = Some m /\ m_ok_pickle m = true /\
+      exists m, nth_error (n_mro n) i = Some m /\ m_ok_pickle m = true /\ m_is_exc m = true /\
         (forall j' m', j' < i -> nth_error (n_mro n) j' = Some m' -> m_ok_pickle m' = false) /\
         a = m_loaded m /\ (i = 0 -> k = KOrig /\ named = true) /\ (i <> 0 -> k = KBase i)) /\
   (n_exc_rt_pickle n = false -> first_ok CPickle (n_mro n) 0 = None ->
@@ -461,6 +464,9 @@ Definition no_shadow (g : graph) : Prop :=
   forall n, In n g -> n_has_module n = true -> n_resolve n <> RNonExc.
 
 Definition wrappable (g : graph) : Prop := forall n, In n g -> n_wrap_rt_pickle n = true.
+(* every class of an MRO that can be rebuilt and pickled is an exception class (no mixin in front of Exception) *)
+Definition mro_exceptions (g : graph) : Prop :=
+  forall n m, In n g -> In m (n_mro n) -> m_ok_pickle m = true -> m_is_exc m = true.
 
 
 (* Boolean form of the statement for one observed outcome (store/load failures are judged by the harness'
